@@ -468,11 +468,11 @@ def main():
     for N in range(0, 10):
         if tier == "quick":
             U = 3 if N <= 2 else 2
-            if N > 5:
-                continue
         else:
             U = 3 if N <= 3 else 2
         for op in OPS[N]:
+            if tier == "quick" and N > 5 and op not in ("insert", "remove", "contains", "clear", "iter", "get", "iter_restrictions"):
+                continue          # quick: the set-algebra operations stop at arity 5; the point operations cover every arity
             if op == "mapped" and N > (4 if tier == "quick" else 6):
                 continue          # measured: mapped on arities 7-9 does not finish within 20 min per query; outside the claim
             tasks.append({"N": N, "U": U, "op": op, "solver": os.environ.get("VERIF_SOLVER", "kissat"), "timeout": 120 if tier == "quick" else 1200})
